@@ -57,6 +57,12 @@ func spec(nonce int) []byte {
 		"when": map[string]any{"type": "string", "format": "date-time"},
 		"opt":  map[string]any{"type": "object", "default": map[string]any{}, "properties": map[string]any{"deep": map[string]any{"type": "string", "default": "dd"}}},
 		"n":    map[string]any{"type": "integer", "default": 7},
+		// defaults that are containers whose own schemas carry further defaults: injecting the nested
+		// default must write into a copy, never into the document's default value
+		"sort": map[string]any{"type": "array", "default": []any{map[string]any{"field": "status"}}, "items": map[string]any{"type": "object", "properties": map[string]any{
+			"field": map[string]any{"type": "string"}, "dir": map[string]any{"type": "string", "default": "asc"}}}},
+		"grid": map[string]any{"type": "array", "default": []any{[]any{map[string]any{}}}, "items": map[string]any{"type": "array", "items": map[string]any{"type": "object", "properties": map[string]any{
+			"cell": map[string]any{"type": "integer", "default": 1}}}}},
 		"kind": map[string]any{"oneOf": []any{map[string]any{"type": "string", "enum": []any{"x"}}, map[string]any{"type": "integer", "minimum": 5}}},
 	}}
 	doc := kinx.Doc(map[string]any{
